@@ -1,5 +1,5 @@
 Require Import V.Lib V.GoPath V.GoNet V.C01_Model.
-From Coq Require Import Permutation.
+From Coq Require Import Permutation ZifyBool ZifyN.
 Open Scope N_scope.
 
 (* ---------- longest path prefix ---------- *)
@@ -971,4 +971,157 @@ Proof.
   assert (Hpath : addr_path (h ++ up) = addr_path (h' ++ up)).
   { unfold addr_path. rewrite !after_slash_app by assumption. reflexivity. }
   rewrite Hhost, Hpath. reflexivity.
+Qed.
+
+(* ---------- bracketed IPv6 literals: brackets and port are ignored too ---------- *)
+Definition bracketed (a : bytes) (port : option bytes) : bytes :=
+  LBR :: a ++ RBR :: match port with Some p => COLON :: p | None => [] end.
+
+Lemma index_of_rbr a rest :
+  no_byte RBR a = true -> index_of RBR (LBR :: a ++ RBR :: rest) = Some (S (length a)).
+Proof.
+  intros H. cbn [index_of]. change (LBR =? RBR) with false. cbv iota.
+  rewrite index_of_app by exact H. reflexivity.
+Qed.
+
+Lemma skipn_app_exact {A} (l1 l2 : list A) : skipn (length l1) (l1 ++ l2) = l2.
+Proof. induction l1; cbn; auto. Qed.
+Lemma firstn_app_exact {A} (l1 l2 : list A) : firstn (length l1) (l1 ++ l2) = l1.
+Proof. induction l1; cbn; auto. f_equal; auto. Qed.
+
+Lemma split_host_port_bracket_port a p :
+  no_byte LBR a = true -> no_byte RBR a = true -> plain p = true ->
+  split_host_port (bracketed a (Some p)) = Some (a, p).
+Proof.
+  unfold plain, bracketed. intros Ha1 Ha2 Hp.
+  apply andb_true_iff in Hp as [Hp Hp4]. apply andb_true_iff in Hp as [Hp Hp3].
+  apply andb_true_iff in Hp as [Hp1 Hp2].
+  remember (a ++ RBR :: COLON :: p) as tl eqn:Etl.
+  assert (Htl : tl = (a ++ [RBR]) ++ COLON :: p) by (rewrite Etl, <- app_assoc; reflexivity).
+  assert (Hlen : length tl = (length a + 2 + length p)%nat)
+    by (rewrite Etl, app_length; cbn [length]; lia).
+  assert (F1 : last_index COLON (LBR :: tl) = Some (S (S (length a)))).
+  { unfold last_index. cbn [rev length]. rewrite Hlen, Htl, rev_app_distr. cbn [rev].
+    rewrite <- !app_assoc. cbn [app].
+    rewrite index_of_app by (rewrite no_byte_rev; exact Hp1).
+    rewrite rev_length. f_equal. lia. }
+  assert (F2 : index_of RBR (LBR :: tl) = Some (S (length a))) by (rewrite Etl; apply index_of_rbr; exact Ha2).
+  assert (F4 : contains_byte LBR tl = false).
+  { apply contains_byte_none. rewrite Etl, no_byte_app, Ha1. unfold no_byte in *. cbn. exact Hp2. }
+  assert (F5 : skipn (S (length a)) tl = COLON :: p).
+  { rewrite Htl. replace (S (length a)) with (length (a ++ [RBR])) by (rewrite app_length; cbn; lia).
+    apply skipn_app_exact. }
+  assert (F6 : firstn (length a) tl = a) by (rewrite Etl; apply firstn_app_exact).
+  unfold split_host_port. rewrite F1, F2. change (LBR =? LBR) with true. cbv iota.
+  cbn [length]. rewrite Hlen.
+  replace (Nat.eqb (S (length a) + 1) (S (length a + 2 + length p))) with false
+    by (symmetry; apply Nat.eqb_neq; lia).
+  replace (Nat.eqb (S (length a) + 1) (S (S (length a)))) with true
+    by (symmetry; apply Nat.eqb_eq; lia).
+  cbn [skipn]. rewrite F4.
+  assert (E1 : skipn (S (length a) + 1) (LBR :: tl) = COLON :: p).
+  { replace (S (length a) + 1)%nat with (S (S (length a))) by lia. exact F5. }
+  assert (E2 : skipn (S (S (length a)) + 1) (LBR :: tl) = p).
+  { replace (S (S (length a)) + 1)%nat with (S (S (S (length a)))) by lia.
+    change (skipn (S (S (length a))) tl = p).
+    replace tl with ((a ++ [RBR; COLON]) ++ p) by (rewrite Etl, <- app_assoc; reflexivity).
+    replace (S (S (length a))) with (length (a ++ [RBR; COLON])) by (rewrite app_length; cbn; lia).
+    apply skipn_app_exact. }
+  assert (E3 : firstn (S (length a) - 1) tl = a).
+  { replace (S (length a) - 1)%nat with (length a) by lia. exact F6. }
+  rewrite E1, E2, E3.
+  rewrite contains_byte_none by (unfold no_byte in *; cbn; exact Hp3). reflexivity.
+Qed.
+
+Lemma split_host_port_bracket_noport a :
+  no_byte RBR a = true -> split_host_port (bracketed a None) = None.
+Proof.
+  unfold bracketed. intros Ha. unfold split_host_port.
+  destruct (last_index COLON (LBR :: a ++ [RBR])); [|reflexivity].
+  change (LBR =? LBR) with true. cbv iota. rewrite index_of_rbr by exact Ha.
+  cbn [length]. rewrite app_length. cbn [length].
+  replace (Nat.eqb (S (length a) + 1) (S (length a + 1))) with true
+    by (symmetry; apply Nat.eqb_eq; lia).
+  reflexivity.
+Qed.
+
+Lemma unbracket_bracketed a : unbracket (bracketed a None) = a.
+Proof.
+  unfold unbracket, bracketed. change (LBR =? LBR) with true. cbv iota.
+  rewrite rev_app_distr. cbn [rev app]. change (RBR =? RBR) with true. cbv iota. apply rev_involutive.
+Qed.
+
+Lemma lower_byte_fix c x :
+  (c <? 65) || ((90 <? c) && (c <? 97)) || (122 <? c) = true ->
+  (lower_byte x =? c) = (x =? c).
+Proof.
+  intros Hc. unfold lower_byte. destruct ((65 <=? x) && (x <=? 90)) eqn:E; [|reflexivity].
+  destruct (N.eqb_spec (x + 32) c), (N.eqb_spec x c); try reflexivity; exfalso; lia.
+Qed.
+
+Lemma no_byte_to_lower c s :
+  (c <? 65) || ((90 <? c) && (c <? 97)) || (122 <? c) = true ->
+  no_byte c (to_lower s) = no_byte c s.
+Proof.
+  intros Hc. unfold no_byte, to_lower. induction s as [|x s IH]; [reflexivity|].
+  cbn [map forallb]. rewrite IH, (lower_byte_fix _ _ Hc). reflexivity.
+Qed.
+
+Lemma to_lower_bracketed a : to_lower (bracketed a None) = bracketed (to_lower a) None.
+Proof. unfold bracketed, to_lower. cbn [map]. rewrite map_app. reflexivity. Qed.
+
+Lemma unbracket_no_lbr a : no_byte LBR a = true -> unbracket a = a.
+Proof.
+  destruct a as [|c a]; [reflexivity|]. cbn. intros H. apply andb_true_iff in H as [H _].
+  apply negb_true_iff in H. rewrite H. reflexivity.
+Qed.
+
+(* [a] is the text between the brackets: no brackets, no slash, and not itself of the form
+   host:port (an IPv6 address has at least two colons) *)
+Theorem host_bracket_port_irrelevant sites xf a a' port port' up proto :
+  no_byte LBR a = true -> no_byte RBR a = true -> no_byte SLASH a = true ->
+  no_byte LBR a' = true -> no_byte RBR a' = true -> no_byte SLASH a' = true ->
+  split_host_port (to_lower a) = None ->
+  match port with Some p => plain p = true | None => True end ->
+  match port' with Some p => plain p = true | None => True end ->
+  to_lower a = to_lower a' -> upto_slash up = [] ->
+  tserve (tbuild sites) xf (bracketed a port) up proto =
+  tserve (tbuild sites) xf (bracketed a' port') up proto.
+Proof.
+  intros Ha1 Ha2 Ha3 Hb1 Hb2 Hb3 Hnp Hp Hp' Hl Hup. rewrite !route_spec. unfold spec.
+  assert (K : forall b o, no_byte LBR b = true -> no_byte RBR b = true -> no_byte SLASH b = true ->
+                          split_host_port (to_lower b) = None ->
+                          match o with Some p => plain p = true | None => True end ->
+                          addr_host (strip_port (bracketed b o) ++ up) = to_lower b /\
+                          addr_path (strip_port (bracketed b o) ++ up) = SLASH :: after_slash up).
+  { intros b o B1 B2 B3 Bn Bo. destruct o as [p|].
+    - unfold strip_port. rewrite split_host_port_bracket_port by assumption.
+      unfold addr_host, addr_path, spec_norm_host.
+      rewrite upto_slash_app, after_slash_app, Hup, app_nil_r by assumption. rewrite Bn.
+      rewrite unbracket_no_lbr by (rewrite no_byte_to_lower by reflexivity; exact B1). auto.
+    - unfold strip_port. rewrite split_host_port_bracket_noport by assumption.
+      assert (Hs : no_byte SLASH (bracketed b None) = true).
+      { unfold bracketed. cbv iota. change (LBR :: b ++ [RBR]) with ([LBR] ++ b ++ [RBR]).
+        rewrite !no_byte_app, B3. reflexivity. }
+      unfold addr_host, addr_path, spec_norm_host.
+      rewrite upto_slash_app, after_slash_app, Hup, app_nil_r by assumption.
+      rewrite to_lower_bracketed.
+      rewrite split_host_port_bracket_noport by (rewrite no_byte_to_lower by reflexivity; exact B2).
+      rewrite unbracket_bracketed. auto. }
+  destruct (K a port Ha1 Ha2 Ha3 Hnp Hp) as [K1 K2].
+  assert (Hnp' : split_host_port (to_lower a') = None) by (rewrite <- Hl; exact Hnp).
+  destruct (K a' port' Hb1 Hb2 Hb3 Hnp' Hp') as [K1' K2'].
+  rewrite K1, K2, K1', K2', Hl. reflexivity.
+Qed.
+
+(* a bracketed text with exactly one colon is read as host:port once the brackets are gone:
+   there the port is NOT ignored *)
+Lemma host_bracket_one_colon_differs :
+  exists sites xf a port up proto,
+    no_byte LBR a = true /\ no_byte RBR a = true /\ no_byte SLASH a = true /\ plain port = true /\
+    tserve (tbuild sites) xf (bracketed a (Some port)) up proto <>
+    tserve (tbuild sites) xf (bracketed a None) up proto.
+Proof.
+  exists [(bs "a.com"%string, 1)], [], (bs "a.com:1"%string), (bs "2"%string), (bs "/"%string), 1.
+  vm_compute. repeat split; discriminate.
 Qed.
